@@ -227,6 +227,19 @@ theorem C11_no_overwrite_partial (attr : Name) (auto : Bool) (ops : List Op) (hr
   have := (hfi m o hmo).orig
   rwa [reach_attr] at this
 
+/-- **C11, with `model_override` only attributes the model defines are replaced**: whatever the history
+(no removed event named like an attribute some model defines as None), a registered model still has its
+class, and every name it did not define (missing, or None) is still undefined — the machine bound
+nothing there. -/
+theorem C11_override_only_replaces (attr : Name) (auto : Bool) (ops : List Op) (hr : TOps ops ops)
+    (m : Nat) (o : Obj) (hmo : (m, o) ∈ (Reach attr true auto ops).objs) :
+    ∃ o0, Op.addModel m o0 ∈ ops ∧ o.cls = o0.cls ∧ ∀ n, n ≠ attr → o0.unbound n = true → o.unbound n = true := by
+  have hti : TInv (fun m o => Op.addModel m o ∈ ops) (Reach attr true auto ops) :=
+    TInv.run ops ops _ rfl (by intro m o h; cases h) hr
+  obtain ⟨o0, hp, hk⟩ := hti m o hmo
+  rw [reach_attr] at hk
+  exact ⟨o0, hp, hk.cls, hk.unb⟩
+
 /-- one `_checked_assignment`: without `model_override` an attribute the model has (not None) is left
 alone; with `model_override` ONLY such attributes are replaced, a missing one stays missing -/
 theorem C11_checked_assignment (ov : Bool) (o : Obj) (n : Name) (b : Binding) :
@@ -898,7 +911,32 @@ def exOps : List Op :=
    .addState [66], .addTransition [114, 117, 110] (.one [66]) (.to [65]) true,
    .fire 0 (toName exAttr [66]), .removeTransition [114, 117, 110] none none, .addModel 1 {}]
 
+def isCleanB (o : Obj) : Bool :=
+  (o.inst ++ o.cls).all fun p => !sIs.isPrefixOf p.1 || (match p.2 with | .isState _ => true | _ => false)
+
+theorem isClean_of_B {o : Obj} (h : isCleanB o = true) : IsClean o := by
+  intro n b hp hg
+  simp only [isCleanB, List.all_eq_true, List.mem_append] at h
+  have hmem : (n, b) ∈ o.inst ∨ (n, b) ∈ o.cls := by
+    unfold Obj.getattr at hg
+    cases hi : kget n o.inst with
+    | some b' => rw [hi] at hg; injection hg with hg; subst hg; exact Or.inl (kget_mem _ _ _ hi)
+    | none => rw [hi] at hg; exact Or.inr (kget_mem _ _ _ hg)
+  have := h (n, b) hmem
+  simp only [Bool.or_eq_true, Bool.not_eq_true'] at this
+  rcases this with h1 | h1
+  · rw [List.isPrefixOf_iff_prefix.mpr hp] at h1; cases h1
+  · cases b <;> simp at h1
+    exact ⟨_, rfl⟩
+
 example : AttrOK exAttr := ⟨by decide, by decide⟩
+/-- the second model of the history below carries nothing but `is_` helpers under `is_…` names -/
+example : IsClean ((Reach exAttr false true exOps).objs.getLast!).2 := isClean_of_B (by decide)
+example : TOps exOps exOps := ⟨by
+  intro e src dst hm m o0 ho hu
+  simp only [exOps, List.mem_cons, List.not_mem_nil, or_false] at hm ho
+  rcases hm with hm | hm | hm | hm | hm | hm | hm | hm <;> try cases hm
+  rcases ho with ho | ho | ho | ho | ho | ho | ho | ho <;> cases ho <;> decide, fun _ h => h⟩
 example : OpsFresh exOps := opsFresh_of_B (by decide)
 example : FOps exOps exOps := FOps_of_B (by decide)
 example : UserEvents exOps := UserEvents_of_B (by decide)
